@@ -73,6 +73,7 @@ Clauses(o, R, atoms) ==
                 THEN {"spec-normal-term"} ELSE {}
    IN tableC \cup resultC \cup termC
 
+StaysInSync == {"reject-leaves-table-unchanged", "reject-repeatable", "rejects-ill-typed"}
 CallStep ==
    /\ l <= Len(Traces[tid].ops)
    /\ LET o == Traces[tid].ops[l]
@@ -88,14 +89,18 @@ CallStep ==
                   \* ids handed out by the environment are adopted only when they are fresh and distinct
                   Rec == IF Functional(A) /\ Injective(A) /\ \A e \in A : e[1] >= nextId THEN RecOf(A) ELSE NoRec
                   R == Apply(table, nextId, o.k, atoms, Rec)
+                  cl == Clauses(o, R, atoms)
               IN /\ WFCall(o.k, atoms, table)
                  /\ (MkWith(R) \/ MkRejectWith(R, 0))     \* Mk / MkReject with the outcome computed once
-                 /\ bad' = bad \cup {<<c, l>> : c \in Clauses(o, R, atoms)}
+                 /\ bad' = bad \cup {<<c, l>> : c \in cl}
                  /\ resid' = Append(resid, IF R.ok /\ o.r[1] = "ok" /\ o.r[2] \in IdsOf(R.T) THEN o.r[2] ELSE 0)
                  /\ seen' = IF o.r[1] = "ok" /\ o.r[2] \notin DOMAIN seen THEN seen @@ (o.r[2] :> o.r[3]) ELSE seen
                  /\ rejected' = IF R.ok THEN rejected ELSE rejected \cup {R.c}
                  /\ cnt' = o.n
-                 /\ dead' = dead
+                 \* after a divergence of a result or of the table the recorded ids no longer mean what the
+                 \* specification's ids mean: the rest of the trace is not judged (the trace is reported).
+                 \* A node left behind / returned by an ill-typed attempt is never referenced: judging goes on.
+                 /\ dead' = (cl \ StaysInSync # {})
    /\ l' = l + 1 /\ tid' = tid
 
 \* ---- the end of the trace: every earlier result is read again and must not have changed
